@@ -466,9 +466,23 @@ def _race_scan(res, pid, ops, gmp, what="requests of one subscriber in flight to
 
 
 def _hammer_check(res, ops, impl, pid):
-    """`conc hammer` lines: loops of requests by several goroutines on one subscriber"""
+    """`conc hammer` lines: loops of requests by several goroutines on one subscriber; `conc first`: first contact over and over"""
     for op, im in zip(ops, impl):
         t = op.split(" ")
+        if len(t) == 4 and t[1] == "first":
+            res.evaluations += 1
+            res.dist["first-contact-rounds"] += 1
+            d = dict(x.split("=", 1) for x in im.split(" ") if "=" in x)
+            if not im.startswith("first ") or "unusable" not in d:
+                res.violation("oracle", "%s: the process crashed while first-contact creates were in flight (%s)" % (pid, im[:60]), [op, "# impl: " + im[:200]])
+            elif not d["unusable"].startswith("0"):
+                res.violation("oracle", "%s: an accepted and a refused create of a never-seen subscriber in flight together: %s of the %s sessions whose "
+                              "creation was acknowledged (201) could not be updated and released afterwards (update/release answered %s)" % (
+                                  pid, d["unusable"].split(":")[0], d.get("acked"), d["unusable"].split(":")[-1]), [op, "# impl: " + im])
+            else:
+                res.traces_validated += 1
+                res.nontrivial.add(op)
+            continue
         if len(t) < 5 or t[1] != "hammer":
             continue
         res.evaluations += 1
@@ -501,7 +515,7 @@ def _hammer_check(res, ops, impl, pid):
 def _hammer_phase(ctx, res, pid, mode, replay_ops, race=True):
     """the hammer lines of one family (conc stream, generator mode `mode`), on the race-detector build when there is one"""
     if replay_ops is not None:
-        ops = [o for o in replay_ops if o.startswith("conc hammer ")]
+        ops = [o for o in replay_ops if o.startswith("conc hammer ") or o.startswith("conc first ")]
         if not ops:
             return
     else:
